@@ -1376,3 +1376,330 @@ def concat_parts(e):
         rec(e)
         return out
     return None
+
+
+# ------------------------------------------------------------------------------ per-instance state
+IMMUTABLE_MAKERS = {'frozenset', 'tuple', 'bytes', 'str', 'int', 'float', 'bool', 'object', 'Struct', 'compile', 'getLogger',
+                    'partial', 'namedtuple', 'property', 'len', 'max', 'min', 'ord', 'chr', 'format', 'join', 'encode',
+                    'decode', 'lower', 'upper', 'range', 'frozenset', 'sorted' if False else 'tuple', 'text_type',
+                    'python_implementation', 'python_version', 'system', 'release'}
+PURE_METHODS = {'get', 'items', 'keys', 'values', 'copy', 'index', 'count', 'find', 'rfind', 'startswith', 'endswith', 'join',
+                'format', 'encode', 'decode', 'lower', 'upper', 'strip', 'lstrip', 'rstrip', 'split', 'partition', 'pack',
+                'unpack', 'unpack_from', 'match', 'search', 'issubset', 'issuperset', 'isdisjoint', 'union',
+                'intersection', 'difference', '__contains__', 'hex', 'tobytes'}
+PURE_FUNCS = {'len', 'iter', 'sorted', 'list', 'tuple', 'set', 'frozenset', 'bytes', 'str', 'min', 'max', 'sum', 'any', 'all',
+              'isinstance', 'repr', 'enumerate', 'zip', 'bool', 'dict', 'reversed', 'hash', 'id', 'type', 'text_type'}
+
+
+def _mutable_value(v):
+    """Description of the mutable object expression v creates, or None (immutable / not an object creation)."""
+    if isinstance(v, ast.IfExp):
+        return _mutable_value(v.body) or _mutable_value(v.orelse)
+    if isinstance(v, ast.BoolOp):
+        for x in v.values:
+            r = _mutable_value(x)
+            if r:
+                return r
+        return None
+    if isinstance(v, (ast.List, ast.Dict, ast.Set, ast.ListComp, ast.DictComp, ast.SetComp)):
+        return type(v).__name__.lower() + ' display'
+    if isinstance(v, ast.Call):
+        f = v.func
+        name = f.id if isinstance(f, ast.Name) else f.attr if isinstance(f, ast.Attribute) else ''
+        if name in IMMUTABLE_MAKERS:
+            return None
+        return 'object created by %s(...)' % U(f)
+    return None
+
+
+def _use_kind(parents, node):
+    """How the object denoted by expression node (a Load) is used: 'read' | 'mutate:<what>' | 'escape:<what>' |
+    ('alias', name)."""
+    p = parents.get(id(node))
+    if p is None:
+        return 'read'
+    if isinstance(p, ast.Attribute) and p.value is node:
+        gp = parents.get(id(p))
+        if isinstance(gp, ast.Call) and gp.func is p:
+            return 'read' if p.attr in PURE_METHODS else 'mutate:.%s()' % p.attr
+        if isinstance(p.ctx, (ast.Store, ast.Del)):
+            return 'mutate:attribute store .%s' % p.attr
+        return 'read'
+    if isinstance(p, ast.Call):
+        if p.func is node:
+            return 'read'
+        fn = p.func.id if isinstance(p.func, ast.Name) else None
+        if fn in PURE_FUNCS:
+            return 'read'
+        return 'escape:argument of %s' % U(p.func)
+    if isinstance(p, ast.keyword):
+        return 'escape:keyword argument'
+    if isinstance(p, ast.Subscript) and p.value is node:
+        return 'mutate:item store' if isinstance(p.ctx, (ast.Store, ast.Del)) else 'read'
+    if isinstance(p, ast.AugAssign) and p.target is node:
+        return 'mutate:augmented assignment'
+    if isinstance(p, ast.Assign) and p.value is node:
+        t = p.targets[0]
+        if len(p.targets) == 1 and isinstance(t, ast.Name):
+            return ('alias', t.id)
+        return 'escape:stored in %s' % U(t)
+    if isinstance(p, (ast.Return, ast.Yield)):
+        return 'escape:returned'
+    if isinstance(p, (ast.Tuple, ast.List, ast.Dict, ast.Set)):
+        return 'escape:placed in a container'
+    if isinstance(p, ast.Starred):
+        return 'read'
+    return 'read'
+
+
+def _parents_of(fnode):
+    par = {}
+    for n in ast.walk(fnode):
+        for c in ast.iter_child_nodes(n):
+            par[id(c)] = n
+    return par
+
+
+def _object_uses(fnode, is_ref):
+    """Non-read uses, inside function fnode, of the object that expressions satisfying is_ref denote (one level of
+    local aliasing followed)."""
+    par = _parents_of(fnode)
+    bad = []
+    aliases = set()
+    for n in ast.walk(fnode):
+        if isinstance(n, ast.expr) and isinstance(getattr(n, 'ctx', None), ast.Load) and is_ref(n):
+            k = _use_kind(par, n)
+            if isinstance(k, tuple):
+                aliases.add(k[1])
+            elif k != 'read':
+                bad.append((n, k))
+    for n in ast.walk(fnode):
+        if isinstance(n, ast.Name) and isinstance(n.ctx, ast.Load) and n.id in aliases:
+            k = _use_kind(par, n)
+            if isinstance(k, tuple):
+                continue
+            if k != 'read':
+                bad.append((n, k + ' (through local %s)' % n.id))
+    return bad
+
+
+def shared_state(R, RID):
+    """Objects that are created once but reachable from every instance / every call - class-level attributes and
+    parameter defaults bound to a mutable object - must only be read.  (A buffer, validator, poll object, header list
+    or option dict shared this way makes one connection's state leak into another's.)"""
+    prog = R.prog
+    n_cls = n_fn = 0
+    for q, c in sorted(prog.classes.items()):
+        if c.module.name.startswith('examples'):
+            continue
+        n_cls += 1
+        for name, vals in sorted(c.attrs.items()):
+            if name.startswith('__') and name.endswith('__'):
+                continue
+            what = None
+            for v in vals:
+                what = what or _mutable_value(v)
+            if not what:
+                continue
+            # instance attribute of the same name unconditionally rebound in __init__ => the class-level object is
+            # never the one used through instances
+            bad = []
+            for fq, fi in sorted(prog.funcs.items()):
+                if fi.module.name.startswith('examples'):
+                    continue
+
+                def is_ref(n, name=name):
+                    return isinstance(n, ast.Attribute) and n.attr == name
+                for (n, k) in _object_uses(fi.node, is_ref):
+                    if fi.parent is None or True:
+                        bad.append((fi, n, k))
+            init = c.methods.get('__init__')
+            rebound = False
+            if init is not None:
+                rebound = any(isinstance(s, ast.Assign) and any(isinstance(t, ast.Attribute) and t.attr == name and
+                              isinstance(t.value, ast.Name) and t.value.id == 'self' for t in s.targets)
+                              for s in init.node.body)
+            R.ob(RID, 'class-level %s.%s is only read' % (q, name), not bad or rebound,
+                 '%s.%s is one %s shared by every instance, and it is modified / handed out (%s in %s): state leaks '
+                 'between connections' % (q, name, what, bad[0][2] if bad else '', bad[0][0].qual if bad else ''),
+                 func=(bad[0][0] if bad else None) or (init or q), node=(bad[0][1] if bad else None),
+                 construct='shared class attribute %s.%s' % (q, name))
+    for fq, fi in sorted(prog.funcs.items()):
+        if fi.module.name.startswith('examples'):
+            continue
+        n_fn += 1
+        a = fi.node.args
+        pos = a.posonlyargs + a.args
+        pairs = list(zip(pos[len(pos) - len(a.defaults):], a.defaults)) + \
+            [(k, d) for (k, d) in zip(a.kwonlyargs, a.kw_defaults) if d is not None]
+        for (arg, d) in pairs:
+            what = _mutable_value(d)
+            if not what:
+                continue
+
+            def is_ref(n, nm=arg.arg):
+                return isinstance(n, ast.Name) and n.id == nm
+            bad = _object_uses(fi.node, is_ref)
+            R.ob(RID, 'default of %s(%s=...) is only read' % (fq, arg.arg), not bad,
+                 'the default value of parameter %s of %s is one %s shared by every call, and it is modified / kept '
+                 '(%s)' % (arg.arg, fq, what, bad[0][1] if bad else ''), func=fi, node=(bad[0][0] if bad else d),
+                 construct='shared default %s(%s)' % (fq, arg.arg))
+    R.ob(RID, 'per-instance state scan', n_cls >= 40 and n_fn >= 150, 'scanned %d classes, %d functions' % (n_cls, n_fn),
+         func=None, node=None, construct='shared state scan')
+
+
+def no_send_retry(R, RID, module='session'):
+    """A failed socket.sendall() is never followed by another sendall() in the same operation: sendall reports no
+    count, so re-sending after a failure (EINTR, EAGAIN ...) puts the first bytes of the frame on the wire twice."""
+    n_sites = 0
+    for key, cx in sorted(R.types.ctxs.items(), key=lambda kv: str(kv[0])):
+        fi = cx.func
+        if fi.module.name != module:
+            continue
+        has = False
+        for c in own_nodes(fi.node):
+            if isinstance(c, ast.Call) and isinstance(c.func, ast.Attribute) and c.func.attr == 'sendall':
+                has = True
+        if not has:
+            continue
+        g = R.cfg(fi.qual, cx.recv, fault='oserror')
+        sends = [n for n in g.live_nodes() for c in n.calls
+                 if any(t.kind == 'ext' and t.name == 'socket.sendall' for t in R.types.call_targets(c, g.ctx))]
+        for n in sends:
+            n_sites += 1
+            after = g.reachable([m for (m, l) in n.succ if l.startswith('exc:')])
+            again = [m for m in sends if m in after]
+            R.ob(RID, 'failed sendall not retried in %s' % fi.qual, not again,
+                 'after `%s` fails, %s sends again (`%s`): the part of the data that had already been transmitted is '
+                 'transmitted a second time and the frame stream is corrupted' % (
+                     n.text()[:50], fi.qual, again[0].text()[:50] if again else ''), func=fi, node=n.ast,
+                 construct='sendall retried in %s' % fi.qual)
+    need(n_sites >= 2, 'no socket.sendall sites found in module %s' % module)
+
+
+def stale_refs(R, RID, modules=None):
+    """A field that is replaced outside __init__ (reset_compressor() makes a new zlib object ...) must not have
+    references to the object it held cached in another field (a bound method, the object itself): the cache keeps
+    pointing at the replaced object.  Reported unless every function that replaces the field also rewrites the cache."""
+    n_fields = 0
+    for q, c in sorted(R.prog.classes.items()):
+        if c.module.name.startswith('examples') or (modules and c.module.name not in modules):
+            continue
+        stores = {}       # field -> {method name: [(Assign, value)]}
+        for mname, fi in c.methods.items():
+            for s in own_nodes(fi.node):
+                if isinstance(s, ast.Assign):
+                    for t in s.targets:
+                        for t1 in (t.elts if isinstance(t, ast.Tuple) else [t]):
+                            if isinstance(t1, ast.Attribute) and isinstance(t1.value, ast.Name) and t1.value.id == 'self':
+                                stores.setdefault(t1.attr, {}).setdefault(mname, []).append((s, s.value))
+        for F, ws in sorted(stores.items()):
+            if not (set(ws) - {'__init__'}):
+                continue
+            n_fields += 1
+            for B, wb in sorted(stores.items()):
+                if B == F:
+                    continue
+                for mname, lst in wb.items():
+                    for (s, v) in lst:
+                        refs = False
+                        par = _parents_of(s)
+                        for x in ast.walk(v):
+                            if isinstance(x, ast.Attribute) and x.attr == F and isinstance(x.value, ast.Name) and x.value.id == 'self':
+                                # self.F or self.F.attr kept as is (not the result of calling something on it)
+                                top = x
+                                while isinstance(par.get(id(top)), ast.Attribute):
+                                    top = par[id(top)]
+                                p = par.get(id(top))
+                                if isinstance(p, ast.Call) and (p.func is top or top in p.args):
+                                    continue
+                                if isinstance(p, (ast.Compare, ast.BoolOp, ast.UnaryOp, ast.BinOp, ast.Subscript, ast.IfExp)):
+                                    continue
+                                refs = True
+                        if refs:
+                            missing = sorted(m for m in ws if m != '__init__' and m not in wb)
+                            R.ob(RID, '%s.%s caches a reference into %s' % (q, B, F), not missing,
+                                 '%s.%s = %s keeps a reference to the object in self.%s, but %s replace(s) self.%s without '
+                                 'updating self.%s: the cached reference keeps using the old object (a "reset" has no '
+                                 'effect)' % (q, B, U(v), F, missing, F, B), func=c.methods[mname], node=s,
+                                 construct='stale cache %s.%s of %s' % (q, B, F))
+    R.ob(RID, 'replaceable fields scanned', n_fields >= 1, '%d fields replaced outside __init__' % n_fields, func=None, node=None,
+         construct='stale reference scan')
+
+
+# ------------------------------------------------------------------------------ message templates
+NET_ATTRS = {'reason', 'text', 'data', 'payload', 'headers', 'status', 'http_ver'}
+
+
+def net_tainted(R, g, n, e, depth=4):
+    """Why expression e (at node n) may contain text chosen by the peer / the OS, or None: a header value of a Response,
+    a payload-derived attribute of a message / frame, the text of a caught non-package exception.  Locals are followed
+    through their reaching definitions."""
+    rd = g_rd(g)
+    seen = set()
+
+    def rec(node, x, d):
+        for sub in walk_no_nested(x):
+            if isinstance(sub, ast.Call) and isinstance(sub.func, ast.Attribute) and sub.func.attr in ('get', 'get_list'):
+                tys = R.types.expr(sub.func.value, g.ctx)
+                if any(isinstance(t, str) and t.startswith('inst:') and 'Response' in t for t in tys):
+                    return 'header value %s' % U(sub)
+            if isinstance(sub, ast.Attribute) and sub.attr in NET_ATTRS:
+                tys = R.types.expr(sub.value, g.ctx)
+                if any(isinstance(t, str) and t.startswith('inst:') and t.split(':')[1].split('.')[0] in (
+                        'message', 'frame', 'response', 'proxy') for t in tys):
+                    return 'wire-derived %s' % U(sub)
+            if isinstance(sub, ast.Name) and isinstance(sub.ctx, ast.Load) and d > 0:
+                for dn in rd.defs_at(node, sub.id):
+                    if (dn.id, sub.id) in seen:
+                        continue
+                    seen.add((dn.id, sub.id))
+                    if dn.kind == 'handler':
+                        toks = R.exc.handler_tokens(dn.ast, g.ctx)
+                        if any(not (t in R.prog.classes) for t in toks):
+                            return 'text of the caught %s' % '/'.join(sorted(toks))
+                        continue
+                    v = rd.value_of_def(dn, sub.id) if dn is not g.entry else None
+                    if v is not None:
+                        r = rec(dn, v, d - 1)
+                        if r:
+                            return r
+        return None
+    return rec(n, e, depth)
+
+
+def message_templates(R, RID, minimum=20):
+    """WebSocketError.__init__ formats its first argument (msg.format(*args)).  A first argument that already contains
+    text chosen by the peer or the OS is therefore used as a format *template*: a brace in it raises
+    KeyError/IndexError/ValueError from the constructor instead of the intended error (which the handlers that expect
+    HandshakeError / TransportFail / ProtocolError then miss).  Such text must be passed as a format argument."""
+    n_sites = 0
+    for key, cx in sorted(R.types.ctxs.items(), key=lambda kv: str(kv[0])):
+        fi = cx.func
+        if fi.module.name.startswith('examples') or (fi.cls is not None and cx.recv != fi.cls.qual):
+            continue
+        has = any(isinstance(c, ast.Call) and (U(c.func).endswith('Error') or U(c.func).endswith('Fail') or
+                                               U(c.func).endswith('Closed') or U(c.func).endswith('Closing'))
+                  for c in own_nodes(fi.node))
+        if not has:
+            continue
+        g = R.cfg(fi.qual, cx.recv)
+        for n in g.live_nodes():
+            for c in n.calls:
+                ts = R.types.call_targets(c, g.ctx)
+                if not any(t.kind == 'ctor' and 'errors.WebSocketError' in R.prog.mro(t.cls) for t in ts):
+                    continue
+                n_sites += 1
+                a0 = c.args[0] if c.args else None
+                if a0 is None or isinstance(a0, ast.Constant):
+                    continue
+                why = net_tainted(R, g, n, a0)
+                R.ob(RID, 'message template of %s in %s' % (U(c.func), fi.qual), why is None,
+                     'the message template `%s` contains %s; WebSocketError.__init__ formats it again, so a brace in that '
+                     'text raises KeyError/IndexError/ValueError instead of %s' % (U(a0), why, U(c.func)), func=fi, node=c,
+                     construct='template %s in %s' % (U(c.func), fi.qual))
+    need(n_sites >= minimum, 'expected at least %d WebSocketError construction sites, found %d' % (minimum, n_sites))
+    f = R.func('errors.WebSocketError.__init__')
+    fm = [x for x in own_nodes(f.node) if isinstance(x, ast.Call) and isinstance(x.func, ast.Attribute) and x.func.attr == 'format']
+    R.ob(RID, 'WebSocketError formats msg with its arguments', len(fm) == 1, 'WebSocketError.__init__ body', func=f,
+         node=None, construct='WebSocketError.__init__')
